@@ -855,6 +855,34 @@ def r_delay(E):
                         f"later occurrences by the wrong time", rel, acc.lineno, fn_orig.name))
                     res.floor = 1
                     return res
+                # the delays as the exclusive prefix sums of the steps' durations: `zip(steps, accumulate((s.user_time_spent
+                # for s in steps), add, initial=<empty>))` — the `initial` term is what shifts the sums by one step, so that
+                # a step is delayed by the steps *before* it; without it each step is delayed by its own duration as well
+                gi = src.generators[0]
+                over_steps = norm(_fxd(gi.iter, owner)).endswith("uj_steps") and isinstance(gi.target, ast.Name) \
+                    and norm(src.elt) == f"{gi.target.id}.user_time_spent" and not gi.ifs
+                opf = norm(acc.args[1]) if len(acc.args) > 1 else next((norm(k.value) for k in acc.keywords if k.arg == "func"), "add")
+                if over_steps and opf.split(".")[-1] in ("add", "__add__"):
+                    res.instances += 1
+                    has_initial = any(k.arg == "initial" for k in acc.keywords)
+                    par_ = getattr(acc, "_parent", None)
+                    zipped = any(isinstance(z, ast.Call) and norm(z.func) == "zip" and len(z.args) == 2
+                                 and norm(_fxd(z.args[0], owner)).endswith("uj_steps")
+                                 and any(y is acc for y in ast.walk(_fxd(z.args[1], owner))) or (
+                                     isinstance(z, ast.Call) and norm(z.func) == "zip" and len(z.args) == 2
+                                     and isinstance(z.args[1], ast.Name) and isinstance(par_, ast.Assign)
+                                     and any(isinstance(t_, ast.Name) and t_.id == z.args[1].id for t_ in par_.targets))
+                                 for z in ast.walk(owner))
+                    if not zipped:
+                        res.undecided.append("accumulated delays are not paired with the steps by zip(steps, delays)")
+                    elif not has_initial:
+                        res.findings.append(Finding(
+                            "R-DELAY", "delay includes the step's own duration",
+                            "the delays are the running totals of the steps' durations *including* each step's own (accumulate "
+                            "without `initial`): a job is placed at the end of its step instead of its start — every "
+                            "occurrence is shifted by the duration of the step that holds it", rel, acc.lineno, fn_orig.name))
+                    res.floor = 1
+                    return res
         res.undecided.append("no loop over uj_steps")
         return res
     step = norm(outer.target)
